@@ -1462,6 +1462,96 @@ def flatten_const_dicts(fn_node) -> int:
     return count
 
 
+def fold_constant_tests(fn_node) -> int:
+    """``if True: S`` -> S, ``if False: S else: T`` -> T, ``a if True else b`` -> a, and ``True and x`` / ``not False`` inside
+    a test folded first: the shape a constant keyword argument (``move=True``) leaves behind once its helper is inlined."""
+    count = 0
+
+    def truth(e):
+        if isinstance(e, ast.Constant) and (isinstance(e.value, (bool, int, float, str)) or e.value is None):
+            return bool(e.value)
+        return None
+
+    class F(ast.NodeTransformer):
+        def visit_UnaryOp(self, node):
+            self.generic_visit(node)
+            if isinstance(node.op, ast.Not):
+                t = truth(node.operand)
+                if t is not None and isinstance(node.operand.value, bool):
+                    return ast.copy_location(ast.Constant(value=not t), node)
+            return node
+
+        def visit_IfExp(self, node):
+            self.generic_visit(node)
+            t = truth(node.test)
+            if t is not None:
+                nonlocal count
+                count += 1
+                return node.body if t else node.orelse
+            return node
+
+    def fold_test(test):
+        """boolean operators with constant bool operands, in a *test* position only (the value of ``True and x`` is x)"""
+        test = F().visit(test)
+        if isinstance(test, ast.BoolOp):
+            vals = [fold_test(v) for v in test.values]
+            is_and = isinstance(test.op, ast.And)
+            kept = []
+            for v in vals:
+                t = truth(v) if isinstance(v, ast.Constant) and isinstance(v.value, bool) else None
+                if t is None:
+                    kept.append(v)
+                elif t != is_and:
+                    # ``False and ...`` / ``True or ...``: decided if nothing with an effect stands before it
+                    if not kept:
+                        return ast.copy_location(ast.Constant(value=t), test)
+                    kept.append(v)
+            if not kept:
+                return ast.copy_location(ast.Constant(value=is_and), test)
+            if len(kept) == 1:
+                return kept[0]
+            test.values = kept
+        return test
+
+    def walk_block(blk):
+        nonlocal count
+        i = 0
+        while i < len(blk):
+            st = blk[i]
+            for fld in ("body", "orelse", "finalbody"):
+                sub = getattr(st, fld, None)
+                if isinstance(sub, list) and sub and isinstance(sub[0], ast.stmt) and not isinstance(st, (ast.FunctionDef, ast.AsyncFunctionDef, ast.ClassDef)):
+                    walk_block(sub)
+            for h in getattr(st, "handlers", []) or []:
+                walk_block(h.body)
+            if isinstance(st, (ast.If, ast.While)):
+                st.test = fold_test(st.test)
+            if isinstance(st, ast.If):
+                t = truth(st.test) if isinstance(st.test, ast.Constant) and isinstance(st.test.value, bool) else None
+                if t is not None:
+                    repl = st.body if t else st.orelse
+                    blk[i : i + 1] = repl
+                    count += 1
+                    i += len(repl)
+                    continue
+            i += 1
+
+    # expression-level folds first (IfExp with a constant test anywhere)
+    for st in list(fn_node.body):
+        F().visit(st)
+    walk_block(fn_node.body)
+    if not fn_node.body:
+        fn_node.body.append(ast.Pass())
+    for n in ast.walk(fn_node):
+        for fld in ("body",):
+            sub = getattr(n, fld, None)
+            if isinstance(sub, list) and not sub and isinstance(n, (ast.If, ast.For, ast.While, ast.With, ast.Try)):
+                sub.append(ast.Pass())
+    if count:
+        ast.fix_missing_locations(fn_node)
+    return count
+
+
 def flip_empty_branches(fn_node) -> int:
     """``if c: pass else: S`` -> ``if not c: S``; an ``else: pass`` is dropped (left behind by single-exit conversion)."""
     count = 0
@@ -2266,6 +2356,8 @@ def normalise(prog: Program) -> Tuple[Program, List[str]]:
             changed_alias = True
             log.append(f"{fn.qualname} (container aliases {', '.join(al)} expanded)")
         if body_hash(fn.node) not in _inventory()[1]:
+            if fold_constant_tests(fn.node):
+                changed_alias = True
             if default_then_override(fn.node):
                 changed_alias = True
             nt = thread_none_tests(fn.node)
